@@ -22,3 +22,23 @@ package responsewriter
 //@ func (*ResponseWriter) Message() (m *pool.Message)
 //@   requires r != nil
 //@   ensures [get] m == r.response
+//
+// ---- C12: replacing the response message ------------------------------------------------------------------
+//
+// SetMessage gives the replaced message back to the pool (exactly that one, once) and keeps the new
+// one; Swap gives nothing back and returns the replaced message to the caller, who owns it from then on.
+//
+//@ func (Client) ReleaseMessage(msg *pool.Message)
+//@   trusted
+//
+//@ func (*ResponseWriter) SetMessage(m *pool.Message)
+//@   requires r != nil
+//@   modifies r.response
+//@   ensures [releases-replaced] callCount(ReleaseMessage) == 1 && callArg(ReleaseMessage, 0, 1) == old(r.response)
+//@   ensures [keeps-new] r.response == m
+//
+//@ func (*ResponseWriter) Swap(m *pool.Message) (prev *pool.Message)
+//@   requires r != nil
+//@   modifies r.response
+//@   ensures [releases-nothing] notCalled(ReleaseMessage)
+//@   ensures [hands-back] prev == old(r.response) && r.response == m
